@@ -78,6 +78,36 @@ def gen_phase(rng, dbinfo, name, pool):
     return ph
 
 
+def redefine(rng, phases):
+    """same minerals, same order; restriction / force_equality / target / amount (rarely the alternative formula) changed"""
+    import copy
+    out = copy.deepcopy(phases)
+    changed = False
+    for p in out:
+        if rng.random() < 0.55 or (not changed and p is out[-1]):
+            changed = True
+            r = rng.random()
+            if r < 0.4 and "alt" not in p:
+                new = rng.choice([None, "dissolve_only", "precipitate_only"])
+                if new == p.get("opt"):
+                    new = None if p.get("opt") else "dissolve_only"
+                p.pop("opt", None)
+                if new:
+                    p["opt"] = new
+            elif r < 0.5:
+                if p.pop("force_equality", None) is None:
+                    p["force_equality"] = True
+            elif r < 0.8:
+                p["si"] = 0.0 if (p["si"] != 0 and rng.random() < 0.4) else round(p["si"] + rng.choice([-1, 1]) * rng.uniform(0.05, 1.5), 3)
+            elif r < 0.95:
+                p["moles"] = 0.0 if rng.random() < 0.3 else float(fmt(loguni(rng, 1e-6, 1.0)))
+            elif "alt" in p:
+                p.pop("alt")
+            else:
+                p["si"] = round(p["si"] - 0.5, 3)
+    return out
+
+
 def gen_case(rng, i, dbinfos):
     db = rng.choices(DBS, DBW)[0]
     info = dbinfos[db]
@@ -226,6 +256,21 @@ def gen_case(rng, i, dbinfos):
         if r >= 0.6:
             st["temp"] = round(rng.uniform(0, 100), 2)
         stages.append(st)
+    # histories: a later stage may REDEFINE the assemblage with the same minerals (so that the engine's same-model fast path
+    # quick_setup is taken) but other restrictions / targets / amounts, and may be a separate Run* call on the same instance
+    related = "exchange" in spec and any("phase" in c for c in spec["exchange"]["comps"])
+    if spec["phases"] and not related:
+        if not stages and rng.random() < 0.45:
+            stages.append({})
+        if stages and rng.random() < 0.6 and len(stages) < 3:
+            stages.append({} if rng.random() < 0.6 else {"temp": round(rng.uniform(0, 100), 2)})
+        cur = spec["phases"]
+        for st in stages:
+            if rng.random() < 0.35:
+                st["newrun"] = True
+            if rng.random() < 0.65:
+                cur = redefine(rng, cur)
+                st["redef"] = cur
     spec["stages"] = stages
     if rng.random() < 0.12:
         spec["high_precision"] = True
@@ -349,9 +394,16 @@ def render(spec):
         L.append(f"SAVE {s} 1")
     L.append("END")
     for st in spec["stages"]:
+        if st.get("newrun"):
+            L.append("#RUNSPLIT")      # the harness starts a new RunString call here (same instance)
         L.append("USE solution 1")
         for s in saves:
+            if s == "equilibrium_phases" and "redef" in st:
+                continue
             L.append(f"USE {s} 1")
+        if "redef" in st:
+            L.append("EQUILIBRIUM_PHASES 1")
+            L += phase_lines({"phases": st["redef"]})
         if "reaction" in st:
             L.append("REACTION 1")
             L.append(f" {st['reaction']['formula']} 1")
@@ -381,6 +433,11 @@ def shrink_candidates(spec):
     if spec["stages"]:
         mod(lambda s: s["stages"].pop())
         for k, st in enumerate(spec["stages"]):
+            if "newrun" in st:
+                mod(lambda s, k=k: s["stages"][k].pop("newrun"))
+            if "redef" in st:
+                mod(lambda s, k=k: s["stages"][k].pop("redef"))
+        for k, st in enumerate(spec["stages"]):
             if "temp" in st and "reaction" in st:
                 mod(lambda s, k=k: s["stages"][k].pop("temp"))
             if "reaction" in st and len(st["reaction"]["amounts"]) > 1:
@@ -393,7 +450,12 @@ def shrink_candidates(spec):
             continue
         dep = "exchange" in spec and any(c.get("phase") == spec["phases"][k]["name"] for c in spec["exchange"]["comps"])
         if not dep and len(spec["phases"]) > 1:
-            mod(lambda s, k=k: s["phases"].pop(k))
+            def drop(s, k=k):
+                s["phases"].pop(k)
+                for st in s["stages"]:
+                    if "redef" in st:
+                        st["redef"].pop(k)
+            mod(drop)
         for fld in ("opt", "force_equality", "alt"):
             if fld in spec["phases"][k]:
                 mod(lambda s, k=k, fld=fld: s["phases"][k].pop(fld))
